@@ -307,6 +307,8 @@ def gen_pow(rng, tier):
             y = y + 1j * rand_coeffs(rng, y.shape, -1, 1)
             if rng.random() < 0.5:
                 x[0] = -x[0]
+            if rng.random() < 0.4:
+                y = (np.round(y * 8) / 8).astype(np.complex64)      # a narrow complex exponent over a float64 base: NumPy promotes to complex128
         case['y'] = y
     if form == 'scalar_exp' and rng.random() < 0.15 and case['r']['sk'] in ('int', 'np.int64') and case['r']['v'] >= 0:
         case['r']['sk'] = rng.choice(['nd0-int', 'bool']) if case['r']['v'] <= 1 else 'nd0-int'      # 0-d integer array / bool as exponent
@@ -365,6 +367,8 @@ def run_pow(ctx, case):
         m = ctx.model.arrs(dict({'op': 'ew1', 'fn': 'exp', 'x': enc_arr(pr, cx), 'leaves': [enc_arr(np.exp(pr[0]), cx)], 'params': []}, **fk))[0]
         if cx and not np.iscomplexobj(z):
             return 'dtype-pow-poly_exp: x**y with complex y returned dtype %s' % z.dtype
+        if z.dtype != np.result_type(x.dtype, yv.dtype):
+            return 'dtype-pow-poly_exp: x**y with coefficient dtypes %s and %s returned dtype %s (NumPy: %s)' % (x.dtype, yv.dtype, z.dtype, np.result_type(x.dtype, yv.dtype))
     if not close(z, m, tol=1e-8):
         return 'mismatch-%s: differs from the power in R[t]/(t^D), max diff %s' % (tag, maxdiff(z, m))
     return None
